@@ -62,12 +62,17 @@ DEFECT_SCRIPTS = [
 MC_DEPS = {
     "Small": ["Hashbrown.tla", "Griddle.tla", "GriddleCount.tla", "MCGriddle.tla"],
     "CountR8": ["Hashbrown.tla", "GriddleCount.tla", "MCCount.tla"],
+    "Fault": ["Hashbrown.tla", "Griddle.tla", "GriddleCount.tla", "MCGriddle.tla"],
 }
 
 MC = {
     "Small": {
         "quick": ("MCGriddle", "MCSmall", 6, 900),
         "thorough": ("MCGriddle", "MCSmall6", 12, 7200),
+    },
+    "Fault": {
+        "quick": ("MCGriddle", "MCFault", 6, 900),
+        "thorough": ("MCGriddle", "MCFault6", 12, 7200),
     },
     "CountR8": {
         "quick": ("MCCount", "MCCountR8_64", 8, 900),
@@ -82,11 +87,11 @@ PROPS = {
     "C02": dict(suites=["big_plain", "big_heap", "big_collide", "tomb_plain", "tomb_heap", "core_plain", "rel_plain", "core_heap", "defects"], mc=["CountR8"]),
     "C03": dict(suites=["big_plain", "big_heap", "big_collide", "tomb_plain", "tomb_heap", "core_plain", "core_heap", "rel_plain", "set_heap", "defects"], mc=["Small", "CountR8"]),
     "C04": dict(suites=["big_plain", "big_heap", "big_collide", "tomb_plain", "tomb_heap", "core_plain", "rel_plain", "limits_dbg", "limits_rel", "two_heap", "defects"], mc=["Small", "CountR8"]),
-    "C05": dict(suites=["fault_heap", "fault_heap_rel", "tomb_plain", "tomb_heap", "core_heap", "rel_heap", "core_zst", "set_heap", "set_zst", "two_heap", "defects"], mc=["Small", "CountR8"]),
+    "C05": dict(suites=["fault_heap", "fault_heap_rel", "tomb_plain", "tomb_heap", "core_heap", "rel_heap", "core_zst", "set_heap", "set_zst", "two_heap", "defects"], mc=["Small", "CountR8"], asan=["core_heap", "fault_heap", "two_heap", "set_heap", "tomb_heap", "defects"]),
     "C06": dict(suites=["core_heap", "rel_heap", "two_heap", "set_heap", "set_two", "defects"], mc=["Small"]),
     # after an injected panic *every* monitor is part of "the map stays memory-safe and self-consistent,
     # later operations behave normally": any failure in these suites counts for C07
-    "C07": dict(suites=["fault_heap", "fault_heap_rel", "fault_plain", "fault_two", "fault_set", "fault_zst", "defects"], mc=[],
+    "C07": dict(suites=["fault_heap", "fault_heap_rel", "fault_plain", "fault_two", "fault_set", "fault_zst", "defects"], mc=["Fault"],
                 any_monitor=True),
     "C08": dict(suites=["core_heap", "rel_heap", "core_plain", "set_heap", "core_zst"], mc=["Small"]),
     "C09": dict(suites=["core_heap", "rel_heap", "core_plain", "set_heap", "set_zst"], mc=["Small"]),
